@@ -253,7 +253,8 @@ def _concrete_violation():
     pts = np.array([1.5, 3.0, 6.0])
     qs = np.array([0.1, 0.5, 0.9])
     for fam, (cls, kw) in FAMILIES.items():
-        for data, tag in ((x, 'varying'), (np.full(25, 3.7), 'constant'), (np.full(9, -2.5), 'negative constant'), (np.zeros(7), 'zero constant')):
+        for data, tag in ((x, 'varying'), (np.full(25, 3.7), 'constant'), (np.full(9, -2.5), 'negative constant'), (np.zeros(7), 'zero constant'),
+                          (5.0 + 1e-9 * rs.normal(size=40), 'varying on a 1e-9 scale')):
             m = cls(**kw)
             m.fit(data)
             d1 = m.to_dict()
